@@ -525,8 +525,12 @@ class RemoteBitrateEstimator:
         timestamp = abs_send_time << 8
         update_estimate = False
 
-        # make note of SSRC
+        # make note of SSRC, keeping at most the 255 most recently seen
+        # ones as a REMB cannot carry more
+        self.ssrcs.pop(ssrc, None)
         self.ssrcs[ssrc] = arrival_time_ms
+        while len(self.ssrcs) > 255:
+            del self.ssrcs[next(iter(self.ssrcs))]
 
         # update incoming bitrate
         if self.incoming_bitrate.rate(arrival_time_ms) is not None:
